@@ -17,6 +17,10 @@ MAX_DEPTH = 40
 
 class CallMixin:
     def call(self, f, args, kwargs, node, fr):
+        if type(f).__name__ == "Partial":
+            kw = dict(f.kwargs)
+            kw.update(kwargs)
+            return self.call(f.f, f.args + list(args), kw, node, fr)
         if isinstance(f, AstCls):
             return self.construct(f, args, kwargs, node, fr)
         if isinstance(f, Func):
@@ -162,7 +166,62 @@ class CallMixin:
         g.started = True
         return self.run_body(g.func, g.frame)
 
+    def _record_fields(self, ci):
+        """(name, default node|None) of the annotated fields of a NamedTuple / dataclass body."""
+        out = []
+        for st in ci.node.body:
+            if isinstance(st, ast.AnnAssign) and isinstance(st.target, ast.Name) and "ClassVar" not in ast.unparse(st.annotation):
+                out.append((st.target.id, st.value))
+        return out
+
+    def _bind_record(self, ci, args, kwargs, node):
+        fields = self._record_fields(ci)
+        vals = {}
+        if len(args) > len(fields):
+            raise AnalysisError(f"too many arguments for the record class {ci.name} at {self.cur_site}")
+        for (nm, _d), a in zip(fields, args):
+            vals[nm] = a
+        for k, v in kwargs.items():
+            if k not in [f[0] for f in fields] or k in vals:
+                raise AnalysisError(f"bad keyword {k} for the record class {ci.name} at {self.cur_site}")
+            vals[k] = v
+        for nm, d in fields:
+            if nm not in vals:
+                if d is None:
+                    raise AnalysisError(f"missing field {nm} of the record class {ci.name} at {self.cur_site}")
+                fr0 = Frame(ci.module, {})
+                if isinstance(d, ast.Call) and ast.unparse(d.func).endswith("field"):
+                    kw = {k.arg: k.value for k in d.keywords}
+                    if "default_factory" in kw:
+                        vals[nm] = self.call(self.ev(kw["default_factory"], fr0), [], {}, d, fr0)
+                    elif "default" in kw:
+                        vals[nm] = self.ev(kw["default"], fr0)
+                    else:
+                        raise AnalysisError(f"field() without default for {nm} of {ci.name}")
+                else:
+                    vals[nm] = self.ev(d, fr0)
+        return fields, vals
+
     def instantiate(self, ci, args, kwargs, node):
+        base_txt = [ast.unparse(b) for b in ci.node.bases]
+        deco_txt = [ast.unparse(d) for d in ci.node.decorator_list]
+        if any(b.split(".")[-1] == "NamedTuple" for b in base_txt) and ci.find_method("__new__") is None:
+            fields, vals = self._bind_record(ci, args, kwargs, node)
+            t = PTuple([vals[nm] for nm, _d in fields])
+            t.names = [nm for nm, _d in fields]
+            t.record_cls = ci
+            return t
+        if any(d.split("(")[0].split(".")[-1] == "dataclass" for d in deco_txt) and "__init__" not in ci.methods:
+            o = Obj(ci, f"new:{ci.name}@{self.cur_site[1]}", concrete=True)
+            fields, vals = self._bind_record(ci, args, kwargs, node)
+            for nm, _d in fields:
+                o.attrs[nm] = vals[nm]
+            post = ci.find_method("__post_init__")
+            if post is not None:
+                f = Func(post, post.node, None, bound_self=o, module=post.module, defcls=post.cls)
+                self.invoke(f, [], {}, node)
+            self.instantiated.append(o)
+            return o
         o = Obj(ci, f"new:{ci.name}@{self.cur_site[1]}", concrete=True)
         init = ci.find_method("__init__")
         if init is not None:
@@ -311,6 +370,26 @@ class CallMixin:
         u.ext = d
         u.args = args
         return u
+
+    def bi_functools_partial(self, args, kwargs, node, fr):
+        from .vals import Partial
+
+        return Partial(args[0], args[1:], kwargs)
+
+    def bi_functools_reduce(self, args, kwargs, node, fr):
+        seq = self.concrete_seq(args[1])
+        if seq is None:
+            raise AnalysisError(f"functools.reduce over a symbolic sequence at {self.cur_site}")
+        seq = list(seq)
+        if len(args) > 2:
+            acc = args[2]
+        elif seq:
+            acc = seq.pop(0)
+        else:
+            raise Raised("TypeError", self.cur_site, "reduce() of empty iterable with no initial value")
+        for x in seq:
+            acc = self.call(args[0], [acc, x], {}, node, fr)
+        return acc
 
     def bi_ast_iter_child_nodes(self, args, kwargs, node, fr):
         return StrOp("children", [args[0]])
